@@ -1366,6 +1366,10 @@ func (f *frame) atCallObligations(key string, args []SV, pos token.Pos) {
 		if cs.Callee != key {
 			continue
 		}
+		if e.atCallSeen == nil {
+			e.atCallSeen = map[int]bool{}
+		}
+		e.atCallSeen[k] = true
 		extra := map[string]SV{}
 		for i, a := range args {
 			if a.loc == nil && a.tuple == nil {
